@@ -1,5 +1,5 @@
 from .. import facts
-from ..rules import status, image, algebra, opacity
+from ..rules import factors, status, image, algebra, opacity
 
 
 def run(ck):
@@ -10,3 +10,4 @@ def run(ck):
     opacity.r3_mask_elision(ck, P)
     image.r_validated_before_use(ck, P, 'C09-R4')
     status.r19_6_op_reduction(ck, P)        # C19-R6: the OVER->SRC rewrite of fill_boxes is an opacity simplification too
+    factors.r10f_simd_fetchers(ck, P, 'C09-R5')
